@@ -20,10 +20,10 @@ def run(mod, tier, seed):
     init = mod.initial(tier)
     seen = {}
     frontier = []
-    for st in init:
+    for ii, st in enumerate(init):
         k = mod.key_of(st)
         if k not in seen:
-            seen[k] = {'model': st['model'], 'depth': 0, 'hist': []}
+            seen[k] = {'model': st['model'], 'depth': 0, 'hist': [], 'init': ii, 'limit': st.get('max_depth', depth)}
             frontier.append((k, st))
     transitions = 0
     execs = 0
@@ -37,8 +37,10 @@ def run(mod, tier, seed):
     for d in range(1, depth + 1):
         tasks = []
         for k, st in frontier:
+            if d > seen[k]['limit']:
+                continue          # this initial state is explored to a smaller depth
             for a in mod.ACTIONS:
-                tasks.append({'state': st, 'action': a, 'hist': seen[k]['hist']})
+                tasks.append({'state': st, 'action': a, 'hist': seen[k]['hist'], 'init': seen[k]['init'], 'limit': seen[k]['limit']})
         outs = pool.map_cases(mod.__name__, 'step', tasks, chunksize=4)
         nxt = []
         for t, o in zip(tasks, outs):
@@ -52,7 +54,7 @@ def run(mod, tier, seed):
             if o.get('viol'):
                 sig, klass, detail = o['viol']
                 if sig not in viols:
-                    viols[sig] = ({'history': hist, 'initial': 0}, {'verdict': 'viol', 'sig': sig, 'klass': klass, 'detail': detail}, 1)
+                    viols[sig] = ({'history': hist, 'initial': t['init']}, {'verdict': 'viol', 'sig': sig, 'klass': klass, 'detail': detail}, 1)
                 else:
                     c, oo, n = viols[sig]
                     viols[sig] = (c, oo, n + 1)
@@ -61,11 +63,11 @@ def run(mod, tier, seed):
             if k2 in seen:
                 if not mod.same_model(seen[k2]['model'], o['state']['model']):
                     sig = '%s|same-disk-image-different-model-state' % mod.PID
-                    viols.setdefault(sig, ({'history': hist, 'other_history': seen[k2]['hist']},
+                    viols.setdefault(sig, ({'history': hist, 'initial': t['init'], 'other_history': seen[k2]['hist']},
                                            {'verdict': 'viol', 'sig': sig, 'klass': 'model-divergence',
                                             'detail': {'a': seen[k2]['model'], 'b': o['state']['model']}}, 1))
                 continue
-            seen[k2] = {'model': o['state']['model'], 'depth': d, 'hist': hist}
+            seen[k2] = {'model': o['state']['model'], 'depth': d, 'hist': hist, 'init': t['init'], 'limit': t['limit']}
             nxt.append((k2, o['state']))
             if len(samples) < 4 and (len(seen) % 97 == seed % 97 or d == depth):
                 samples.append({'history': hist, 'outcome': o['label'], 'model': o['state']['model']})
